@@ -289,6 +289,24 @@ func cliRun(args []string) int {
 				for _, m := range reListItem.FindAllStringSubmatch(plain, -1) {
 					printed = append(printed, m[2])
 				}
+				// the list block is made of numbered lines, indented detail lines and blank lines; anything else between
+				// the first result and the end of the block is not part of any result
+				lines := strings.Split(plain, "\n")
+				first, last := -1, -1
+				for i, ln := range lines {
+					if reListItem.MatchString(ln) {
+						if first < 0 {
+							first = i
+						}
+						last = i
+					}
+				}
+				for i := first; first >= 0 && i <= last; i++ {
+					ln := lines[i]
+					if ln != "" && !strings.HasPrefix(ln, "   ") && !reListItem.MatchString(ln) {
+						printed = append(printed, "foreign line: "+ln)
+					}
+				}
 			}
 			return
 		}
